@@ -16,13 +16,13 @@ import warnings
 
 import numpy as np
 
-from common.util import Result, f2b, b2f, fl, err_kind
+from common.util import Result, f2b, b2f, fl, err_kind, canon_hash
 from common import nets, nets_g, batch_g
 
 warnings.filterwarnings('ignore', message='Polyfit may be poorly conditioned')
 
 ID = 'C16'
-N = {'quick': 160, 'thorough': 2000}
+N = {'quick': 120, 'thorough': 1500}
 LEAN_MODULES = ['GnpyProofs.Props.C16']
 THEOREMS = [f'Gnpy.Plan.{t}' for t in (
     'plan_results_pointwise', 'plan_result_context', 'plan_perm', 'plan_leaves_settings', 'copy_leaves_settings',
@@ -261,7 +261,7 @@ def _core(j, aggregated):
     if props is not None:
         pros = [x['path-route-object'] for x in props['path-route-objects']]
         core['hops'] = [x['num-unnum-hop']['node-id'] for x in pros if 'num-unnum-hop' in x]
-        core['tsp'] = [x['transponder'] for x in pros if 'transponder' in x][:1]
+        core['tsp'] = [x['transponder'] for x in pros if 'transponder' in x]
         for k in ('path-metric', 'z-a-path-metric'):
             if k in props:
                 core[k] = [[x['metric-type'], x['accumulative-value']] for x in props[k]
@@ -322,16 +322,56 @@ def _fresh_process_alone(case, rid):
     return json.loads(p.stdout.split('@@RESULT@@')[1]), None
 
 
+def _num_close(u, v):
+    if isinstance(u, bool) or isinstance(v, bool) or not isinstance(u, (int, float)) or not isinstance(v, (int, float)):
+        return u == v
+    u, v = float(u), float(v)
+    if math.isnan(u) or math.isnan(v):
+        return math.isnan(u) and math.isnan(v)
+    if math.isinf(u) or math.isinf(v):
+        return u == v
+    return abs(u - v) <= 1e-9 * max(1.0, abs(u))
+
+
+def _tree_close(a, b):
+    """response trees equal up to rel 1e-9 on floats (NaN equal to NaN)"""
+    if isinstance(a, dict) and isinstance(b, dict):
+        return a.keys() == b.keys() and all(_tree_close(a[k], b[k]) for k in a)
+    if isinstance(a, list) and isinstance(b, list):
+        return len(a) == len(b) and all(_tree_close(x, y) for x, y in zip(a, b))
+    return _num_close(a, b)
+
+
 def _arr_close(a, b):
     if a.keys() != b.keys():
         return False
     for d in a:
+        if a[d].keys() != b[d].keys():
+            return False
         for k in a[d]:
             x, y = a[d][k], b[d][k]
-            if len(x) != len(y) or any(not ((math.isinf(u) and math.isinf(v)) or abs(u - v) <= 1e-9 * max(1.0, abs(u)))
-                                       for u, v in zip(x, y)):
+            if len(x) != len(y) or any(not _num_close(u, v) for u, v in zip(x, y)):
                 return False
     return True
+
+
+def _eq_snapshot(eq):
+    """the equipment library the requests are computed with: SI / Span defaults, transceiver modes, amplifier and ROADM entries"""
+    def plain(o):
+        d = vars(o) if hasattr(o, '__dict__') else o
+        return {k: v for k, v in d.items()} if isinstance(d, dict) else d
+    import json
+
+    def dflt(o):
+        if hasattr(o, 'tolist'):
+            return o.tolist()
+        if hasattr(o, '_asdict'):
+            return o._asdict()
+        if hasattr(o, '__dict__'):
+            return {k: v for k, v in vars(o).items()}
+        return repr(o)
+    return json.dumps({kind: {name: plain(obj) for name, obj in eq[kind].items()}
+                       for kind in ('SI', 'Span', 'Transceiver', 'Edfa', 'Roadm') if kind in eq}, sort_keys=True, default=dflt)
 
 
 def run(case, drv):
@@ -352,6 +392,7 @@ def _run_batch(case, drv):
     sim0 = _sim_snapshot()
     reqs = case['requests']
     snap0 = _snapshot(net)
+    eq0 = _eq_snapshot(ctx['eq'])
     mal = case.get('malformed')
     exp_err = {'dup_id': 'ValueError', 'unknown_trx': 'EquipmentConfigError', 'unknown_node': 'ServiceError'}.get(mal)
 
@@ -360,12 +401,27 @@ def _run_batch(case, drv):
         if _snapshot(net) != snap0:
             res.fail(f'settings changed: the designed network differs after {what}')
             ok = False
+        if _eq_snapshot(ctx['eq']) != eq0:
+            res.fail(f'settings changed: the equipment library (SI / transceiver modes / amplifier entries) differs after {what}')
+            ok = False
         s1 = _sim_snapshot()
         if s1 != sim0:
             res.fail(f'settings changed: the process-wide simulation parameters differ after {what}: {s1[:200]} (before: {sim0[:200]})')
             _set_sim(case.get('sim'))     # put them back so that the remaining comparisons of this case are meaningful
             ok = False
         return ok
+    # ---- the references FIRST: every request ALONE, each on a FRESH context (network designed anew from the documents, equipment
+    # loaded anew), before this process has computed the batch — whatever the batch leaves behind cannot reach them
+    alone = {}
+    if not mal:
+        for r in reqs:
+            c1 = _build(case)
+            s_net, s_eq = _snapshot(c1['net']), _eq_snapshot(c1['eq'])
+            a, _ = _plan(c1, [r])
+            alone[r['id']] = a[r['id']]
+            if _snapshot(c1['net']) != s_net or _eq_snapshot(c1['eq']) != s_eq or _sim_snapshot() != sim0:
+                res.fail(f'settings changed: network / equipment / simulation parameters differ after planning of request {r["id"]} alone')
+                _set_sim(case.get('sim'))
     with _ClampSpy() as spy, _NliSpy() as nspy:
         try:
             full, order = _plan(ctx, reqs)
@@ -379,19 +435,22 @@ def _run_batch(case, drv):
                             strict_unknown_include=[bool(r['include']) and r['strict'] and any(
                                 x not in {n.uid for n in net.nodes()} for x in r['include']) for r in reqs])
         res.cmp_exact('planning.error_kind', impl_err, model_err)
-        if impl_err != exp_err:
-            res.fail(f'batch check: a batch with {mal or "valid"} requests gave {impl_err}, must give {exp_err}')
+        # monitor: rejected (network unchanged, checked next) vs accepted; the error KIND is correspondence
+        if (impl_err is None) != (exp_err is None):
+            res.fail(f'batch check: a batch with {mal or "valid"} requests was {"accepted" if impl_err is None else "rejected (" + impl_err + ")"}'
+                     f', must be {"accepted" if exp_err is None else "rejected"}')
         unchanged('planning of the whole batch' + (f' (rejected: {impl_err})' if impl_err else ''))
         res.stats.update({'batches': 1, f'batch_{impl_err or "accepted"}': 1})
         if impl_err or exp_err:
             res.nontrivial = True
             return res
         clamped_full = spy.n
-        # ---- alone ---------------------------------------------------------------------------------------------------------------
-        alone = {}
+        # ---- every request alone once more AFTER the batch, on the batch's own context (state the batch left in the network /
+        # library objects shows here)
+        after = {}
         for r in reqs:
             a, _ = _plan(ctx, [r])
-            alone[r['id']] = a[r['id']]
+            after[r['id']] = a[r['id']]
             unchanged(f'planning of request {r["id"]} alone')
         # ---- permutations --------------------------------------------------------------------------------------------------------
         perms = []
@@ -421,7 +480,9 @@ def _run_batch(case, drv):
         rid = r['id']
         c_full, a_full, agg, _ = full[rid]
         c_alone, a_alone, _, _ = alone[rid]
-        variants = [('alone', c_alone, a_alone, False)] + [(f'in order {p}', pr[rid][0], pr[rid][1], pr[rid][2]) for p, pr in perms]
+        variants = [('alone on a freshly built network, before the batch', c_alone, a_alone, False),
+                    ('alone after the batch', after[rid][0], after[rid][1], False)] + \
+                   [(f'in order {p}', pr[rid][0], pr[rid][1], pr[rid][2]) for p, pr in perms]
         for name, c, a, agg2 in variants:
             ca, cb = c_full, c
             if agg or agg2:   # an aggregated response carries the summed bandwidth: compare without that metric
@@ -437,8 +498,8 @@ def _run_batch(case, drv):
                     a_f = a_full
             else:
                 a_f = a_full
-            if batch_g.canon(ca) != batch_g.canon(cb):
-                diff = next((k for k in ca if ca.get(k) != cb.get(k)), None) or next(iter(set(cb) - set(ca)), '?')
+            if not _tree_close(ca, cb):
+                diff = next((k for k in ca if not _tree_close(ca.get(k), cb.get(k))), None) or next(iter(set(cb) - set(ca)), '?')
                 res.fail(f'batch dependence: request {rid} ({r["kind"]}) reports a different {diff} in the batch than {name}: '
                          f'{str(ca.get(diff))[:160]} vs {str(cb.get(diff))[:160]}', request=rid)
             elif not _arr_close(a_f, a):
@@ -446,20 +507,22 @@ def _run_batch(case, drv):
                          f'the batch and {name}', request=rid)
     # ---- process-wide state: under non-default SimParams one request (the full comb that follows the sparse one) is ALSO computed
     # alone in a FRESH PROCESS, where nothing can have been left behind by earlier computations of this process
-    if case.get('sim') and len(reqs) >= 2 and not full[reqs[1]['id']][2]:
-        rid = reqs[1]['id']
+    sampled = int(canon_hash(case['requests']), 16) % 7 == 0           # ~14 % of the ordinary and multiband batches as well
+    pick = reqs[1] if case.get('sim') else reqs[-1]
+    if (case.get('sim') or sampled) and len(reqs) >= 2 and not full[pick['id']][2]:
+        rid = pick['id']
         fresh, err = _fresh_process_alone(case, rid)
         res.stats['fresh_process_alone_runs'] += 1
         if fresh is None:
             res.fail(f'batch dependence: request {rid} cannot be computed alone in a fresh process: {err}', request=rid)
         else:
             c_full, a_full = full[rid][0], full[rid][1]
-            if batch_g.canon(fresh['core']) != batch_g.canon(c_full):
-                diff = next((k for k in c_full if c_full.get(k) != fresh['core'].get(k)), '?')
-                res.fail(f'batch dependence: request {rid} ({reqs[1]["kind"]}) reports a different {diff} in the batch than alone in '
+            if not _tree_close(fresh['core'], c_full):
+                diff = next((k for k in c_full if not _tree_close(c_full.get(k), fresh['core'].get(k))), '?')
+                res.fail(f'batch dependence: request {rid} ({pick["kind"]}) reports a different {diff} in the batch than alone in '
                          f'a fresh process: {str(c_full.get(diff))[:160]} vs {str(fresh["core"].get(diff))[:160]}', request=rid)
             elif not _arr_close(a_full, fresh['arrays']):
-                res.fail(f'batch dependence: request {rid} ({reqs[1]["kind"]}): per-channel GSNR/OSNR at the receiver differ between '
+                res.fail(f'batch dependence: request {rid} ({pick["kind"]}): per-channel GSNR/OSNR at the receiver differ between '
                          f'the batch and the request computed alone in a fresh process', request=rid)
     # ---- correspondence: the pipeline model reproduces the batch from the alone results ----------------------------------------------
     if not any(v[2] for v in full.values()):
@@ -472,7 +535,7 @@ def _run_batch(case, drv):
             mp = drv.ask('c16.plan', alone=table, batch=ordp)
             res.cmp_exact('planning.results(permuted)', [batch_g.canon(pr[i][0]) for i in ordp], mp['results'])
     res.nontrivial = len(reqs) >= 2 and shared_amp
-    res.stats.update({'requests': len(reqs), 'plannings': 1 + len(reqs) + len(perms), 'clamped_amplifier_calls_in_batch': clamped_full,
+    res.stats.update({'requests': len(reqs), 'plannings': 1 + 2 * len(reqs) + len(perms), 'clamped_amplifier_calls_in_batch': clamped_full,
                       'batches_with_clamped_amplifier': int(clamped_full > 0), 'batches_sharing_an_amplifier': int(shared_amp),
                       'aggregated_batches': int(any(v[2] for v in full.values())),
                       'multiband_batches': int(case['kind'] == 'multiband'),
